@@ -459,14 +459,31 @@ def req_nodes(req):
 DIMS = ['klon', 'klev', 'nblk']
 
 
+BOUNDS = ['klon', 'klev', 'nblk', 'n1', 'n2', 'n3']
+LOWS = ['0', '1', '2', '-1', 'nblk']
+
+
+def default_bound(dim):
+    return DIMS[(dim - 1) % 3] if isinstance(dim, int) else 'klon'
+
+
 def ub_render(desc):
-    """desc = dict(args=[(name, rank, assumed)], conds=[dict(calls=[(fn, arg, dim)], rel, join, body, form, case)], filler=[...])"""
+    """desc = dict(args=[(name, rank, assumed[, lows])], conds=[dict(calls=[(fn, arg, dim[, bound])], rel, join, body, form, case)],
+    filler=[...]); lows = per dimension None (plain `:`) or the text of an explicit lower bound (`0:`): such an argument is an
+    assumed-shape array with a declared lower bound, NOT a plain one (ground truth assumed = False)"""
     names = [a[0] for a in desc['args']]
-    lines = [f"subroutine kernel(klon, klev, nblk, {', '.join(names)}, c)",
+    wide = desc.get('wide', False)
+    extra = ', n1, n2, n3' if wide else ''
+    lines = [f"subroutine kernel(klon, klev, nblk{extra}, {', '.join(names)}, c)",
              '  use abort_mod', '  implicit none',
-             '  integer, intent(in) :: klon, klev, nblk   ! sizes']
-    for name, rank, assumed in desc['args']:
-        shape = ', '.join([':'] * rank) if assumed else ', '.join(DIMS[:rank])
+             f'  integer, intent(in) :: klon, klev, nblk{extra}   ! sizes']
+    for arg in desc['args']:
+        name, rank, assumed = arg[:3]
+        lows = arg[3] if len(arg) > 3 and arg[3] else None
+        if lows:
+            shape = ', '.join(':' if lo is None else f'{lo}:' for lo in lows)
+        else:
+            shape = ', '.join([':'] * rank) if assumed else ', '.join(DIMS[:rank])
         lines.append(f'  real, intent(inout) :: {name}({shape})  ! field {name}')
     lines += ['  character(len=*), intent(in) :: c', '  integer :: i', '']
     fill = list(desc['filler'])
@@ -479,12 +496,14 @@ def ub_render(desc):
         index.append(nc)       # position of this IF among all IF constructs of the body, in source order
         nc += 1
         terms = []
-        for k, (fn, arg, dim) in enumerate(cond['calls']):
+        rels = cond.get('rels') or [cond['rel']] * len(cond['calls'])
+        for k, call in enumerate(cond['calls']):
+            fn, arg, dim = call[:3]
+            bound = call[3] if len(call) > 3 else default_bound(dim)
             f = fn.upper() if cond['case'] == 'upper' else fn
             a = arg.upper() if cond['case'] == 'upper' and k % 2 == 0 else arg
             d = str(dim) if isinstance(dim, int) else dim
-            bound = DIMS[(dim - 1) % 3] if isinstance(dim, int) else 'klon'
-            terms.append(f'{f}({a}, {d}) < {bound}' if cond['rel'] == 'lt' else f'{bound} > {f}({a}, {d})')
+            terms.append(f'{f}({a}, {d}) < {bound}' if rels[k] == 'lt' else f'{bound} > {f}({a}, {d})')
         ctext = (' .or. ' if cond['join'] == 'or' else ' .and. ').join(terms)
         body = "call abort('kernel: dimension too short')" if cond['body'] == 'abort' else 'i = i + 1'
         if cond['form'] == 'inline':
@@ -498,11 +517,15 @@ def ub_render(desc):
 
 
 def ub_calls(desc):
+    """(fn, arg, literal dim or None, index of the IF, bound, call is the left operand)"""
     out = []
     ub_render(desc)
     for ci, cond in enumerate(desc['conds']):
-        for fn, arg, dim in cond['calls']:
-            out.append((fn, arg, dim if isinstance(dim, int) else None, desc['index'][ci]))
+        rels = cond.get('rels') or [cond['rel']] * len(cond['calls'])
+        for k, call in enumerate(cond['calls']):
+            fn, arg, dim = call[:3]
+            bound = call[3] if len(call) > 3 else default_bound(dim)
+            out.append((fn, arg, dim if isinstance(dim, int) else None, desc['index'][ci], bound, rels[k] == 'lt'))
     return out
 
 
@@ -516,36 +539,82 @@ def gen_ubound(rng):
     args = []
     for i in range(nargs):
         rank = rng.randint(1, 3)
-        args.append((f'v{i}', rank, rng.random() < 0.8))
+        r = rng.random()
+        if r < 0.6:
+            args.append((f'v{i}', rank, True, None))                      # plain assumed shape (:)
+        elif r < 0.8:
+            lows = [rng.choice(LOWS) if rng.random() < 0.6 else None for _ in range(rank)]
+            if all(lo is None for lo in lows):
+                lows[rng.randrange(rank)] = rng.choice(['0', '0', '1', '2'])
+            args.append((f'v{i}', rank, False, lows))                     # assumed shape with declared lower bound(s): not plain
+        else:
+            args.append((f'v{i}', rank, False, None))                     # explicit shape
+    wide = rng.random() < 0.6
+    pool = BOUNDS if wide else DIMS
     conds = []
-    for name, rank, _ in args:
-        mode = rng.choice(['full', 'full', 'full', 'partial', 'none', 'joined'])
+    cross = {}                                                            # dimension -> calls of different arguments for one IF
+    for name, rank, _, _ in args:
+        mode = rng.choice(['full', 'full', 'full', 'partial', 'none', 'joined', 'cross', 'cross'])
         dims = list(range(1, rank + 1))
         if mode == 'partial':
             dims = dims[:-1]
         if mode == 'none':
             dims = []
-        fnw = rng.choice([['ubound'], ['ubound'], ['ubound'], ['ubound', 'size'], ['lbound']])
-        calls = [(rng.choice(fnw), name, d if rng.random() < 0.93 else 'i') for d in dims]
+        fnw = rng.choice([['ubound'], ['ubound'], ['ubound'], ['ubound'], ['ubound', 'size'], ['lbound']])
+        calls = [(rng.choice(fnw), name, d if rng.random() < 0.95 else 'i', rng.choice(pool) if wide else default_bound(d))
+                 for d in dims]
         common = dict(rel=rng.choice(['lt', 'gt']), join=rng.choice(['or', 'and']),
                       body='abort' if rng.random() < 0.85 else 'other',
                       form=rng.choice(['block', 'block', 'inline']), case=rng.choice(['lower', 'lower', 'upper']))
         if mode == 'joined' and calls:
             conds.append(dict(calls=calls, **common))
+        elif mode == 'cross' and calls:
+            for cl in calls:
+                cross.setdefault(cl[2], []).append(cl)                    # same dimension index of different arguments
         else:
             for cl in calls:
                 conds.append(dict(calls=[cl], **dict(common, form=rng.choice(['block', 'block', 'inline']))))
-        if rng.random() < 0.15 and calls:      # a repeated check of the first dimension
-            conds.append(dict(calls=[calls[0]], **common))
+        if rng.random() < 0.15 and calls:      # a repeated check of the first dimension (possibly against another bound)
+            rep = calls[0][:3] + ((rng.choice(pool),) if wide and rng.random() < 0.5 else (calls[0][3],))
+            conds.append(dict(calls=[rep], **common))
+    for _, cls_ in sorted(cross.items(), key=lambda kv: str(kv[0])):
+        rng.shuffle(cls_)
+        conds.append(dict(calls=cls_, rel='lt', rels=[rng.choice(['lt', 'gt']) for _ in cls_], join=rng.choice(['or', 'and']),
+                          body='abort', form=rng.choice(['block', 'inline']), case=rng.choice(['lower', 'lower', 'upper'])))
     rng.shuffle(conds)
     filler = rng.sample(FILLER, rng.randint(0, 4))
-    return dict(args=args, conds=conds, filler=filler)
+    return dict(args=args, conds=conds, filler=filler, wide=wide)
+
+
+def ub_structured():
+    """hand-picked members of the two families the random stream must also cover: declared lower bounds with every dimension
+    checked; one IF checking the same dimension of several arguments against different bounds (all operand orders)"""
+    base = dict(rel='lt', join='or', body='abort', form='block', case='lower')
+    out = []
+    for lo in LOWS:
+        out.append(dict(args=[('v0', 1, False, [lo]), ('v1', 1, True, None)],
+                        conds=[dict(calls=[('ubound', 'v0', 1, 'klon')], **base), dict(calls=[('ubound', 'v1', 1, 'klev')], **base)],
+                        filler=[], wide=False))
+    out.append(dict(args=[('v0', 2, False, [None, '0']), ('v1', 2, False, ['0', None])],
+                    conds=[dict(calls=[('ubound', 'v0', 1, 'klon'), ('ubound', 'v0', 2, 'klev')], **base),
+                           dict(calls=[('ubound', 'v1', 2, 'klev'), ('ubound', 'v1', 1, 'klon')], **base)], filler=[], wide=False))
+    for rels in (['lt', 'lt'], ['gt', 'gt'], ['lt', 'gt'], ['gt', 'lt']):
+        for order in (0, 1):
+            cl = [('ubound', 'v0', 1, 'n1'), ('ubound', 'v1', 1, 'n2')]
+            out.append(dict(args=[('v0', 2, True, None), ('v1', 1, True, None)],
+                            conds=[dict(calls=cl[::-1] if order else cl, rels=rels, **base),
+                                   dict(calls=[('ubound', 'v0', 2, 'klev')], **base)], filler=[], wide=True))
+    out.append(dict(args=[('v0', 1, True, None), ('v1', 1, True, None), ('v2', 1, True, None)],
+                    conds=[dict(calls=[('ubound', 'v2', 1, 'n3'), ('ubound', 'v0', 1, 'klon'), ('ubound', 'v1', 1, 'n2')],
+                                **dict(base, form='inline'))], filler=[], wide=True))
+    return out
 
 
 def ub_request(desc):
     return [A('ubound'),
-            [A('args')] + [[A('a'), n, r, bool(asm)] for n, r, asm in desc['args']],
-            [A('calls')] + [[A('c'), fn, arg, d if d is not None else A('none'), ci] for fn, arg, d, ci in ub_calls(desc)],
+            [A('args')] + [[A('a'), a[0], a[1], bool(a[2])] for a in desc['args']],
+            [A('calls')] + [[A('c'), fn, arg, d if d is not None else A('none'), ci, bound, left]
+                            for fn, arg, d, ci, bound, left in ub_calls(desc)],
             ub_render(desc)]
 
 
@@ -586,7 +655,15 @@ def relint_ubound(text):
 
 def ub_desc_from_req(req):
     args = [(a[1], int(str(a[2])), str(a[3]) == 'true') for a in req[1][1:]]
-    calls = [(c[1], c[2], None if str(c[3]) == 'none' else int(str(c[3])), int(str(c[4]))) for c in req[2][1:]]
+    calls = []
+    for c in req[2][1:]:
+        d = None if str(c[3]) == 'none' else int(str(c[3]))
+        if len(c) == 5:      # requests written before bounds were recorded: the renderer's default bound, call on the left
+            calls.append((c[1], c[2], d, int(str(c[4])), default_bound(d), True))
+        elif len(c) == 7:
+            calls.append((c[1], c[2], d, int(str(c[4])), c[5], str(c[6]) == 'true'))
+        else:
+            raise ValueError('malformed call')
     return args, calls, req[3]
 
 
